@@ -175,7 +175,7 @@ for l in (2, 3, 4, 5):
        bound="one next_lexeme() call from EVERY lexer state (position <= %d, nesting depth 0..999) on every %d-byte buffer: "
              "produced byte / end-of-string, consumed length and nesting depth vs the reference step (inductive step of the "
              "literal-string decoder)" % (l, l))
-ob("strlex_lit_step_cont_l3", ["C03"], "strlex.rs", unwind=5, cuts=X1_ERR, stubs=[FMT_STUB], tier="thorough", timeout=2400, mem_gb=16,
+ob("strlex_lit_step_cont_l3", ["C03"], "strlex.rs", unwind=5, cuts=X1_ERR, stubs=[FMT_STUB], tier="quick", timeout=2400, mem_gb=16,
    unwindset=[(r"StringLexer::<'_>::next_lexeme$", None, 2), (r"verif_h_strlex::lit_step_ref::<", 0, 5)], functions=SLFN,
    bound="one next_lexeme() call that starts at a line continuation (backslash + CR / LF / CRLF) in a 3-byte buffer")
 ob("strlex_lit_step_cont_l4", ["C03"], "strlex.rs", unwind=5, cuts=X1_ERR, stubs=[FMT_STUB], tier="thorough", timeout=2400, mem_gb=16,
